@@ -65,7 +65,15 @@ pub static INTERP_FAMILY: std::sync::atomic::AtomicU8 = std::sync::atomic::Atomi
 
 pub static CALC_LOG: std::sync::Mutex<Vec<usize>> = std::sync::Mutex::new(Vec::new());
 
+thread_local! {
+    /// while set, the stack-usage calculator panics (a user callback failing in the middle of a load)
+    pub static CALC_PANICS: std::cell::Cell<bool> = const { std::cell::Cell::new(false) };
+}
+
 fn calc_fn(prog: &[u8], pc: usize, data: &mut dyn Any) -> u16 {
+    if CALC_PANICS.with(|c| c.get()) {
+        panic!("harness: the stack usage calculator panics on purpose");
+    }
     // asked about the placeholder program a VM may hold before the case's program is loaded: a
     // decoy value, so that an answer remembered across set_program() is recognisably wrong later
     if prog.len() == DUMMY_PROG.len() && prog == &DUMMY_PROG[..] {
@@ -224,6 +232,19 @@ pub fn run_interp(c: &Case, bufs: &Bufs, budget: u64, trace_cap: usize) -> Inter
             }
             bufs.reset(c);
             hlp::log_reset();
+        }
+        // a load during which the installed calculator panics (caught, as a caller may do) did not
+        // load anything: the case's program is still the one that runs
+        if c.calc != CalcSpec::None && (c.prog.len() / 8) % 4 == 1 {
+            CALC_PANICS.with(|f| f.set(true));
+            let r = std::panic::catch_unwind(std::panic::AssertUnwindSafe(|| vm.set_program(&DUMMY_PROG, c.offs)));
+            CALC_PANICS.with(|f| f.set(false));
+            if matches!(r, Ok(Ok(()))) {
+                // the calculator was not consulted and the placeholder is loaded: load the case's program again
+                if let Err(e) = vm.set_program(&c.prog, c.offs) {
+                    return Ran::Rejected(e);
+                }
+            }
         }
         // a compilation attempted (and, for programs with local calls, refused) on this VM before it
         // is interpreted must not take anything away from it
